@@ -8,15 +8,6 @@ def nanF : Float := 0.0 / 0.0
 
 def arrOf (g : GridOf Float) : Arr Float := fun i j => g.getI nanF i j
 
-def toRows (cols : Nat) : List Float → List (List Float)
-  | [] => []
-  | l => if cols = 0 then [] else
-    let rec go (fuel : Nat) (l : List Float) : List (List Float) :=
-      match fuel with
-      | 0 => []
-      | fuel + 1 => if l.isEmpty then [] else l.take cols :: go fuel (l.drop cols)
-    go l.length l
-
 def showFlat (rows cols : Nat) (l : List Float) : String :=
   s!"{rows}x{cols}:" ++ ",".intercalate (l.map showFloat)
 
